@@ -32,6 +32,12 @@ def resolve_node_call(fn, expr, depth=0):
         return resolve_node_call(fn, d, depth + 1) if d is not None else None
     if s.k == 'CXXMemberCallExpr' and s.callee and s.callee['name'] == 'node' and s.args():
         a = s.args()[0].strip_all()
+        av = ex.var_of(a)
+        if av is not None:
+            # a local holding the endpoint: const Vertex ev = boost::source(e, g);
+            ad = ex.unique_def(fn, av)
+            if ad is not None:
+                a = ad.strip_all()
         if a.k == 'CallExpr' and a.callee and a.callee['g'] in ('boost::source', 'boost::target') and a.args():
             return ('node', a.callee['name'], ex.key(a.args()[0]), ex.key(s.object_arg()) if s.object_arg() is not None else None)
     return None
